@@ -145,6 +145,25 @@ var varEntries = map[string]func([]byte) error{
 	},
 }
 
+// onlyReader hides every method of the underlying reader except Read (no Len, no Seek, no ReadAt),
+// the way an *os.File, a pipe or a bufio.Reader presents variable contents.
+type onlyReader struct{ r io.Reader }
+
+func (o onlyReader) Read(p []byte) (int, error) { return o.r.Read(p) }
+
+func init() {
+	varEntries["sigdb@opaque"] = func(b []byte) error { _, err := signature.ReadSignatureDatabase(onlyReader{bytes.NewReader(b)}); return err }
+	varEntries["auth2@opaque"] = func(b []byte) error { _, err := signature.ReadEFIVariableAuthencation2(onlyReader{bytes.NewReader(b)}); return err }
+	varEntries["wincert@opaque"] = func(b []byte) error { _, err := signature.ReadWinCertificate(onlyReader{bytes.NewReader(b)}); return err }
+	varEntries["wincertguid@opaque"] = func(b []byte) error { _, err := signature.ReadWinCertificateUEFIGUID(onlyReader{bytes.NewReader(b)}); return err }
+	varEntries["devpath@opaque"] = func(b []byte) error { _, err := device.ParseDevicePath(onlyReader{bytes.NewReader(b)}); return err }
+	varEntries["sigsupp@opaque"] = func(b []byte) error { _, err := signature.GetSupportedSignatures(onlyReader{bytes.NewReader(b)}); return err }
+	varEntries["efivars@opaque"] = func(b []byte) error {
+		_, _, err := fswrapper.NewMemoryWrapper().ParseEfivars(onlyReader{bytes.NewReader(b)}, len(b))
+		return err
+	}
+}
+
 func resolveVal(v string, filelen, soh, cert int) uint32 {
 	switch v {
 	case "FILELEN-1":
@@ -271,6 +290,9 @@ func runPeBad(sc M) {
 
 // seedInput returns a valid input for an entry point (bytes the mutators start from).
 func seedInput(entry string, n int) []byte {
+	if i := strings.Index(entry, "@"); i > 0 {
+		entry = entry[:i]
+	}
 	repo := os.Getenv("VERIF_REPO")
 	if repo == "" {
 		repo = "/repo"
